@@ -99,7 +99,7 @@ def merge_once(ctx, d, rng, variant):
     subdirs, recs = [], []
     for k in range(K):
         ds, tsv, rec = make_probe(rng, k, shared, variant)
-        sub = root / ('probe%d' % k)
+        sub = root / ('probe%d' % (9 + k))     # probe9, probe10, ...: the given order is not the name order
         # all probes of one merge come from the same sorter: same dtypes (they vary between merges)
         D.write_dataset(sub, ds, tsv=tsv, time_dtype=[np.uint64, np.int64, np.int32, np.uint32][variant % 4],
                         id_dtype=[np.int32, np.uint32, np.int64][variant % 3])
